@@ -584,14 +584,24 @@ def check_program(rep, prog):
             puts = [c for c in fn.walk() if c.k == 'CallExpr' and c.callee and c.callee['g'] == 'boost::put' and len(c.args()) == 3]
             good = True
             detail = []
+            undecided_src = []
             for p in puts:
                 val = p.args()[2].strip_all()
                 if val.k == 'CXXMemberCallExpr' and val.callee and val.callee['name'] in ('tree', 'edge'):
                     src = ex.var_of(val.object_arg())
                     lp = p.enclosing('CXXForRangeStmt')
-                    if not (lp is not None and src in [d.decl_id for d in lp.role('loopvar').walk() if d.k == 'VarDecl']):
-                        good = False
-                        detail.append('put at line %d' % p.line)
+                    if lp is not None and src in [d.decl_id for d in lp.role('loopvar').walk() if d.k == 'VarDecl']:
+                        continue
+                    # `const CandidateCycle &cc = allcycles[pos];` in an index loop: the same element under another loop form
+                    al = ex.alias_of(fn, val.object_arg()) if val.object_arg() is not None else None
+                    if al is not None and ((al.k == 'CXXOperatorCallExpr' and al.op in ('[]', '*')) or (al.k == 'CXXMemberCallExpr' and al.callee and al.callee['name'] == 'at')) and \
+                            'CandidateCycle' in ((prog.base_type(al.j.get('t')) or {}).get('canon') or ''):
+                        continue
+                    if 'CandidateCycle' in ((prog.base_type(val.object_arg().strip_all().j.get('t')) or {}).get('canon') or ''):
+                        undecided_src.append('put at line %d reads `%s`' % (p.line, val.text(30)))
+                        continue
+                    good = False
+                    detail.append('put at line %d' % p.line)
                 elif val.cv is not None:
                     continue
                 else:
@@ -599,7 +609,9 @@ def check_program(rep, prog):
                     if 'edge_desc_impl' in (t.get('canon') or '') or t.get('int'):
                         good = False
                         detail.append('`%s`' % p.text(40))
-            if good and puts:
+            if good and puts and undecided_src:
+                rep.undecided('R14c', fn.body, fn, what, undecided_src[0] + ': a candidate that is not traced to the Horton list')
+            elif good and puts:
                 rep.ok('R14c', fn.body, fn, what, '%d property writes, all from cc.tree()/cc.edge() of the Horton list' % len(puts))
             else:
                 rep.violation('R14c', fn.body, fn, what, 'tree/edge properties are written from something else: %s' % detail, key='R14c|%s|provenance' % fn.g)
